@@ -205,7 +205,55 @@ def identity_and_batches(ctx, n):
             ctx.disagree(f"C06:batch-inverse:{dtype.__name__}", desc, "x at every position", "differs", replay=[desc])
 
 
+def collection_on_polytope_stream(ctx, n):
+    """a TransformationCollection applied to a single segment / polygon / cuboid gives, at position i, the image under the i-th
+    transformation (collection axes do not pair with vertex axes); applied to a polytope collection of the same length it acts
+    position by position"""
+    import geometer as g
+    rng = ctx.rng
+    for k in range(n):
+        dim = 2 if k % 3 else 3
+        m = rng.choice([2, 3, 4])
+        mats = [rand_matrix(rng, dim + 1) for _ in range(m)]
+        ts = [g.Transformation(np.array([[float(x) for x in row] for row in M])) for M in mats]
+        tc = g.TransformationCollection(np.stack([np.asarray(t.array) for t in ts]))
+        def pt():
+            return g.Point(*[float(rng.randint(-3, 3)) for _ in range(dim)])
+        kind = rng.choice(["segment", "polygon", "polygon"] if dim == 2 else ["segment", "cuboid", "polygon3"])
+        try:
+            if kind == "segment":
+                a, b = pt(), pt()
+                if a == b:
+                    continue
+                X = g.Segment(a, b)
+            elif kind == "polygon":
+                nv = rng.choice([3, 4, 5])            # also as many vertices as transformations
+                X = g.Polygon(*[g.Point(float(3 * np.cos(2 * np.pi * i / nv) + rng.randint(0, 1)), float(3 * np.sin(2 * np.pi * i / nv))) for i in range(nv)])
+            elif kind == "polygon3":
+                X = g.Polygon(g.Point(0.0, 0.0, 1.0), g.Point(2.0, 0.0, 1.0), g.Point(2.0, 3.0, 2.0), g.Point(0.0, 3.0, 2.0))
+            else:
+                X = g.Cuboid(g.Point(0.0, 0.0, 0.0), g.Point(1.0, 0.0, 0.0), g.Point(0.0, 2.0, 0.0), g.Point(0.0, 0.0, 3.0))
+        except Exception:  # noqa: BLE001
+            continue
+        desc = f"TransformationCollection of {m} maps {[np.asarray(t.array).tolist() for t in ts]} * single {kind} {np.asarray(X.array).tolist()}"
+        ctx.case(desc)
+        ctx.count("collection-on-polytope:" + kind)
+        singles = [call_impl(lambda t=t: t * X) for t in ts]
+        if any(x[0] != "ok" for x in singles):
+            continue
+        r = call_impl(lambda: tc * X)
+        exp = np.stack([np.asarray(x[1].array, dtype=float) for x in singles])
+        ok = r[0] == "ok" and np.asarray(r[1].array).shape == exp.shape
+        if ok:
+            got = np.asarray(r[1].array, dtype=float).reshape(-1, dim + 1)
+            ok = all(proj_equal_positions(e[None], p[None], 1) for e, p in zip(exp.reshape(-1, dim + 1), got))
+        if not ok:
+            ctx.disagree("C06:collection-on-polytope:" + kind, desc, "position i = i-th transformation applied to the polytope",
+                         r[1:3] if r[0] != "ok" else np.round(np.asarray(r[1].array, dtype=float), 5).tolist(), replay=[desc])
+
+
 def correspondence(ctx):
+    collection_on_polytope_stream(ctx, ctx.budget(30, 300))
     from props import c07 as _c07
     _c07.axes_stream(ctx, ctx.budget(30, 300), prefix="C06")
     from props import c07
